@@ -16,9 +16,31 @@ struct Groups<const M: usize> {
     g: [SubDeviceGroup<M, PDI>; 3],
 }
 
+/// The link flags `init` recorded, by port number. `SubDevice` has no public accessor for them, its
+/// `Debug` output shows them.
+fn recorded_ports(sd: &SubDevice) -> Value {
+    let dbg = format!("{sd:?}");
+    let mut out = [-1i64; 4];
+    if let Some(ports) = dbg.split("ports: Ports(").nth(1) {
+        for chunk in ports.split("Port { active: ").skip(1).take(4) {
+            let number = chunk
+                .split("number: ")
+                .nth(1)
+                .and_then(|rest| rest.split(',').next())
+                .and_then(|n| n.trim().parse::<usize>().ok());
+            if let Some(n) = number.filter(|n| *n < 4) {
+                out[n] = i64::from(chunk.starts_with("true"));
+            }
+        }
+    }
+    json!(out)
+}
+
 fn describe(sd: &SubDeviceRef<'_, &SubDevice>) -> Value {
     let id = sd.identity();
+    let inner: &SubDevice = sd;
     json!({
+        "ports": recorded_ports(inner),
         "addr": sd.configured_address(),
         "name": sd.name(),
         "vendor": limbs32(id.vendor_id),
@@ -85,7 +107,12 @@ pub fn run(case: &Value, seed: u64) -> Obj {
     out.insert("case".into(), case.clone());
     let id = get_str(case, "id", "");
     let devices = devices_from_case(case, 2);
-    let mut env = make_env(devices, 1100, default_timeouts(500), seed, id);
+    let Some(seg) = segment_from_case(case, devices) else {
+        out.insert("result".into(), json!("badcase"));
+        out.insert("detail".into(), json!("topology rejected by the simulator"));
+        return out;
+    };
+    let mut env = make_env_seg(seg, 1100, default_timeouts(500), seed, id);
 
     match get_u64(case, "max_subdevices", 8) {
         2 => run_sized::<2>(&mut env, case, &mut out),
@@ -108,6 +135,7 @@ pub fn run(case: &Value, seed: u64) -> Obj {
                 "station": d.station_address(),
                 "al": d.al_state & 0x0F,
                 "alias_reg": d.station_alias(),
+                "ports_open": d.ports_open.iter().map(|b| i64::from(*b)).collect::<Vec<i64>>(),
             })
         })
         .collect();
